@@ -13,7 +13,7 @@ pub fn meta() -> Meta {
     Meta {
         rule: "inputs: (1) every prefix and every -1/+1/0/max corruption of every length-like field of reference-encoded \
 messages for each of the 40 typed record types plus unknown/empty RDATA; (2) short header buffers; (3) bounded-exhaustive \
-tails and RDATA bodies over a reduced alphabet; (4) enumerated pointer graphs; (5) amplification inputs; (6) seeded havoc. \
+tails and RDATA bodies over a reduced alphabet; (4) enumerated pointer graphs; (5) amplification inputs (maximal counts, pointer fans and chains, and datagram-sized / maximal messages filled with copies of one small record of each type); (6) seeded havoc. \
 Monitors: panic recorder, per-case thread-CPU meter (bound 250ms+40us/B), per-case peak-heap meter (bound 64KiB+1KiB/B), \
 CPU watchdog. non-trivial = input of >= 12 bytes whose header announces at least one entry; distinct = hash of the bytes",
         assumptions: &[
@@ -770,6 +770,33 @@ fn amplification_inputs() -> Vec<Vec<u8>> {
             b.extend_from_slice(&(rd.len() as u16).to_be_bytes());
             b.extend_from_slice(&rd);
             v.push(b);
+        }
+    }
+    // (f) a datagram-sized and a maximal message filled with copies of one small valid record, for every typed variant:
+    // whatever a per-type parser reserves or scans per record is multiplied by the number of records
+    {
+        let mut r = Rng::new(0xA3F1);
+        for code in TYPED_CODES.iter().copied().filter(|c| *c != 41) {
+            let mut g = Gen::new(&mut r, Cfg { share: 0, max_rest: 4, exotic: false, ..Default::default() });
+            let mut rec = g.record_of(code).to_wire();
+            rec.name = vec![];
+            let mut m = MsgM { id: 1, flags: 0x8400, ..Default::default() };
+            m.secs[0].push(rec);
+            let one = encode(&m, Plan::None).bytes;
+            let unit = &one[12..];
+            if unit.is_empty() || unit.len() > 400 {
+                continue;
+            }
+            for limit in [9000usize, 65535] {
+                let k = ((limit - 12) / unit.len()).min(65535);
+                let mut b = vec![0u8; 12];
+                b[2] = 0x84;
+                b[6..8].copy_from_slice(&(k as u16).to_be_bytes());
+                for _ in 0..k {
+                    b.extend_from_slice(unit);
+                }
+                v.push(b);
+            }
         }
     }
     v
